@@ -183,7 +183,12 @@ def main(argv=None):
         # that is reported as a violation with the case that was running as the replay
         import subprocess
         cmd = [sys.executable, os.path.abspath(__file__)] + sys.argv[1:]
-        rc = subprocess.call(cmd, env=env)
+        # a check that does not come back (the implementation loops for ever) is a violation too
+        limit = float(os.environ.get("VERIF_TIMEOUT") or (900 if args.tier == "quick" else 6 * 3600))
+        try:
+            rc = subprocess.call(cmd, env=env, timeout=None if args.replay else limit)
+        except subprocess.TimeoutExpired:
+            rc = 124
         if rc in (0, 1) or args.replay:
             return rc
         rc2 = subprocess.call(cmd + ["--crashed", str(rc)], env=env)
@@ -229,6 +234,10 @@ def main(argv=None):
     if args.crashed is not None:
         rc0 = args.crashed
         how = "signal %d" % (-rc0 if rc0 < 0 else rc0 - 128) if (rc0 < 0 or rc0 > 128) else "exit status %d" % rc0
+        if rc0 == 124:
+            ctx.oracle_failure("did-not-terminate", "the check did not finish within its time limit (the implementation does not return, or is orders of magnitude slower than on the unchanged tree); the case that was running is the replay",
+                               {"exit_status": rc0, "last_case": last_case})
+            return finish(ctx, mod)
         ctx.oracle_failure("process-died", "the process running the implementation died (%s) while the check was driving it; the case that was running is the replay" % how,
                            {"exit_status": rc0, "last_case": last_case})
         return finish(ctx, mod)
